@@ -357,21 +357,22 @@ func (m *quotaMonitor) onPrepared(c *Ctx, p *genetics.Population, sorted []*gene
 			continue
 		}
 		nmem := len(sp.members)
+		// floor(survival_thresh*n)+1; the only latitude is the rounding of the floating-point product itself: when it lies
+		// within 4 ulp of an integer the neighbouring value is accepted too (survival_thresh*n + 1.0 may round across it)
 		x := o.SurvivalThresh * float64(nmem)
 		want := int(math.Floor(x)) + 1
+		alt := int(math.Floor(x+1.0))
+		if rx := math.Round(x); rx != x && math.Abs(x-rx) <= 4e-16*math.Max(1, math.Abs(x)) {
+			alt = int(rx) + 1
+		}
 		if want > nmem {
 			want = nmem
 		}
-		got := len(s.Organisms)
-		okSize := got == want
-		if !okSize && nearInt(x) {
-			alt := int(math.Round(x)) + 1
-			if alt > nmem {
-				alt = nmem
-			}
-			alt2 := int(math.Round(x))
-			okSize = got == alt || (got == alt2 && alt2 >= 1)
+		if alt > nmem {
+			alt = nmem
 		}
+		got := len(s.Organisms)
+		okSize := got == want || got == alt
 		if !okSize {
 			m.stop = true
 			dd := m.detail()
